@@ -8,7 +8,8 @@
 (* Time is integer ticks.  Codes are the Kafka wire codes.                                                  *)
 EXTENDS Integers, Sequences, FiniteSets, TLC, Json
 CONSTANTS Members, Topics, NParts, SubsChoices, CommitTP,
-          SessT, RebT,        \* session / rebalance timeout sent in every JoinGroup
+          SessChoices,        \* session timeouts a JoinGroup may carry (per member)
+          RebT,               \* rebalance timeout sent in every JoinGroup
           DefT,               \* defaultSessionTimeout = defaultRebalanceTimeout (30 s)
           KeepT,              \* subset of BOOLEAN: does the store keep the timeouts? InMemoryStore.cloneConsumerGroup drops them (FALSE)
           MaxClock, MaxGen,
@@ -20,25 +21,33 @@ CONSTANTS Members, Topics, NParts, SubsChoices, CommitTP,
           DevRestoreDropsAsg, DevRestoreGenZero,      \* failover loses assignments / generation
           DevExpireIgnoresHb, \* Heartbeat never refreshes lastHeartbeat
           DevNoLaggerDrop,    \* dropRebalanceLaggers never drops
-          DevNoExpire         \* removeExpiredMembers never removes
+          DevNoExpire,        \* removeExpiredMembers never removes
+          DevLaggerSkippedOnExpiry, \* cleanup: `expired || laggers` short-circuit - no lagger drop in a tick in which a session expired
+          DevSyncRefusesIdle, \* after a failover SyncGroup refuses a member whose (persisted) assignment is empty
+          \* store I/O outside the coordinator lock (the repaired tree does all of it under c.mu):
+          DevHbWriteUnlocked,      \* Heartbeat snapshots under the lock, PutConsumerGroup after unlocking
+          DevCleanupWriteUnlocked, \* cleanupGroups sweeps under the lock, Put/DeleteConsumerGroup after unlocking
+          DevSyncLookupUnlocked    \* leader's SyncGroup releases the lock around store.Metadata, assigns with the topics seen before
 VARIABLES grp,     \* c.groups["g"]  ([none |-> TRUE] when not in memory)
           store,   \* the persisted ConsumerGroup ([none |-> TRUE] when absent)
           now, offs,
-          alive, gstart,   \* observation bookkeeping (GroupProps!NextAlive / NextGstart)
+          alive, gstart, fgen,   \* observation bookkeeping (GroupProps!NextAlive / NextGstart / NextFgen)
+          pend,    \* store operation in flight outside the lock ([k |-> "none"] always, unless a Dev*Unlocked deviation is on)
           last,    \* the step just taken: request, reply, group it acted on
           obs,     \* derived from the post-state once per step: [post, rst, sessOf] (see GroupProps parameters)
           hist
-vars == <<grp, store, now, offs, alive, gstart, last, obs, hist>>
+vars == <<grp, store, now, offs, alive, gstart, fgen, pend, last, obs, hist>>
 
 PE == "empty"  PP == "preparing_rebalance"  PC == "completing_rebalance"  PS == "stable"
 AllTP == {tp \in Topics \X (0..3) : tp[2] < NParts[tp[1]]}
 NoGrp == [none |-> TRUE]
+NoPend == [k |-> "none"]
 Mem(g) == IF g.none THEN {} ELSE DOMAIN g.mem
 EmptyGrp == [none |-> FALSE, gen |-> 0, leader |-> "", phase |-> PE, mem |-> <<>>, asg |-> <<>>, rebT |-> DefT, deadline |-> 0]
 Restrict(f, S) == [x \in S |-> f[x]]
 
 Init == /\ grp = NoGrp /\ store = NoGrp /\ now = 0 /\ offs = TLCEval([tp \in AllTP |-> -1])
-        /\ alive = [m \in Members |-> -1] /\ gstart = 0 /\ last = [ev |-> "Init"] /\ obs = [ev |-> "Init"] /\ hist = <<>>
+        /\ alive = [m \in Members |-> -1] /\ gstart = 0 /\ fgen = -1 /\ pend = NoPend /\ last = [ev |-> "Init"] /\ obs = [ev |-> "Init"] /\ hist = <<>>
 
 \* ensureLeader: keeps a leader that is a member, otherwise the smallest (random) id
 EnsureLeaderSet(g) ==
@@ -72,25 +81,26 @@ RestoreDet(s, t) == IF s.none THEN NoGrp ELSE CHOOSE g \in RestoreK(s, t, TRUE) 
 Loaded == IF ~grp.none THEN {grp} ELSE IF store.none THEN {NoGrp} ELSE RestoreSet(store, now)
 EffGen(g) == IF g.none THEN 0 ELSE g.gen
 
-Base(ev, c, gen, code, g0) == [ev |-> ev, c |-> c, gen |-> gen, code |-> code, pre |-> g0, restored |-> (grp.none /\ ~g0.none)]
+Base(ev, c, gen, code, g0) == [ev |-> ev, c |-> c, gen |-> gen, code |-> code, pre |-> g0, restored |-> (grp.none /\ ~g0.none), pending |-> FALSE]
+Pending(r) == [r EXCEPT !.pending = TRUE]
 
 \* ---------------------------------------------------------------- observation bookkeeping + shared property text
 P == INSTANCE GroupProps WITH e <- last', pre <- last'.pre, post <- obs'.post, mem <- grp', rst <- obs'.rst,
-       restored <- last'.restored, now <- now', alive <- alive, sessOf <- obs'.sessOf, gstart <- gstart,
+       restored <- last'.restored, now <- now', alive <- alive, sessOf <- obs'.sessOf, gstart <- gstart, fgen <- fgen,
        offsPre <- offs, offsPost <- offs', AllMembers <- Members, AllTP <- AllTP, RebT <- RebT
 Book == /\ obs' = TLCEval(LET r == RestoreDet(store', now') IN
                           [post |-> IF ~grp'.none THEN grp' ELSE r, rst |-> r,
                            sessOf |-> [m \in Mem(last'.pre) |-> last'.pre.mem[m].sess]])
-        /\ alive' = P!NextAlive /\ gstart' = P!NextGstart
+        /\ alive' = P!NextAlive /\ gstart' = P!NextGstart /\ fgen' = P!NextFgen
 
 \* ---------------------------------------------------------------- JoinGroup
-Join(c, topics) ==
+Join(c, topics, sess) ==
   /\ \E g0 \in Loaded :
      LET g == IF g0.none THEN EmptyGrp ELSE g0
          exists == c \in Mem(g)
          subChanged == exists /\ g.mem[c].topics # topics
-         ms == IF exists THEN [g.mem[c] EXCEPT !.topics = topics, !.hb = now, !.sess = SessT]
-               ELSE [topics |-> topics, sess |-> SessT, hb |-> now, jg |-> 0]
+         ms == IF exists THEN [g.mem[c] EXCEPT !.topics = topics, !.hb = now, !.sess = sess]
+               ELSE [topics |-> topics, sess |-> sess, hb |-> now, jg |-> 0]
          g1 == [g EXCEPT !.mem = [m \in Mem(g) \cup {c} |-> IF m = c THEN ms ELSE g.mem[m]],
                          !.asg = [m \in Mem(g) \cup {c} |-> IF m \in Mem(g) THEN g.asg[m] ELSE {}]]
          cands == IF Cardinality(Mem(g1)) = 1 /\ g1.phase = PE THEN StartRebalanceSet([g1 EXCEPT !.leader = c], RebT, now)
@@ -107,48 +117,61 @@ Join(c, topics) ==
                    ready == ready0 \/ complete
                IN /\ grp' = g5 /\ store' = Persist(g5)
                   /\ last' = Base("Join", c, 0, IF ready THEN 0 ELSE 27, g0) @@
-                             [sub |-> topics, rgen |-> g5.gen, leader |-> g5.leader, list |-> IF ready /\ c = g5.leader THEN Mem(g5) ELSE {}]
-  /\ hist' = Append(hist, [a |-> "Join", c |-> c, sub |-> topics])
-  /\ UNCHANGED <<now, offs>> /\ Book
+                             [sub |-> topics, sess |-> sess, rgen |-> g5.gen, leader |-> g5.leader, list |-> IF ready /\ c = g5.leader THEN Mem(g5) ELSE {}]
+  /\ hist' = Append(hist, [a |-> "Join", c |-> c, sub |-> topics, sess |-> sess])
+  /\ UNCHANGED <<now, offs, pend>> /\ Book
 
 \* ---------------------------------------------------------------- assignPartitions: round-robin in sortedMembers order
 Perms(S) == {f \in [1..Cardinality(S) -> S] : \A i, j \in 1..Cardinality(S) : i # j => f[i] # f[j]}
 Subscribed(g) == UNION {g.mem[m].topics : m \in Mem(g)}
-AssignOf(g, ord) ==
+AssignOf(g, ord, topics) ==     \* topics = the topics whose partitions were looked up
   [m \in Mem(g) |-> {tp \in AllTP :
        LET el == SelectSeq(ord, LAMBDA x : DevAssignAllMembers \/ tp[1] \in g.mem[x].topics)
-       IN tp[1] \in Subscribed(g) /\ el # <<>> /\ el[(tp[2] % Len(el)) + 1] = m}]
-AssignSet(g) == {AssignOf(g, ord) : ord \in Perms(Mem(g))}
+       IN tp[1] \in topics /\ el # <<>> /\ el[(tp[2] % Len(el)) + 1] = m}]
+AssignSetT(g, topics) == {AssignOf(g, ord, topics) : ord \in Perms(Mem(g))}
+AssignSet(g) == AssignSetT(g, Subscribed(g))
 
+Hold == [hold |-> TRUE]
 Sync(c, d) ==
   /\ \E g \in Loaded :
      LET gen == EffGen(g) + d
          R(code) == Base("Sync", c, gen, code, g) @@ [asg |-> {}]
-     IN IF g.none THEN /\ last' = R(25) /\ UNCHANGED <<grp, store>>
-        ELSE IF ~DevSyncNoGen /\ gen # g.gen THEN /\ last' = R(22) /\ grp' = g /\ UNCHANGED store
-        ELSE IF c \notin Mem(g) THEN /\ last' = R(25) /\ grp' = g /\ UNCHANGED store
-        ELSE IF g.phase = PP THEN /\ last' = R(27) /\ grp' = g /\ UNCHANGED store
-        ELSE IF g.phase = PC /\ c # g.leader THEN /\ last' = R(27) /\ grp' = g /\ UNCHANGED store
+         H == [a |-> "Sync", c |-> c, d |-> d]
+         Plain(l, g2, st) == last' = l /\ grp' = g2 /\ store' = st /\ pend' = pend /\ hist' = Append(hist, H)
+     IN IF g.none THEN Plain(R(25), grp, store)
+        ELSE IF ~DevSyncNoGen /\ gen # g.gen THEN Plain(R(22), g, store)
+        ELSE IF c \notin Mem(g) THEN Plain(R(25), g, store)
+        ELSE IF g.phase = PP THEN Plain(R(27), g, store)
+        ELSE IF g.phase = PC /\ c # g.leader THEN Plain(R(27), g, store)
+        ELSE IF DevSyncRefusesIdle /\ g.phase = PS /\ g.asg[c] = {} /\ fgen = g.gen THEN Plain(R(27), g, store)
+        ELSE IF g.phase = PC /\ DevSyncLookupUnlocked
+        THEN \* the leader parks in store.Metadata with the lock released; nothing is decided yet
+             /\ pend = NoPend
+             /\ last' = Base("Hold", c, gen, 0, g) /\ grp' = g /\ store' = store
+             /\ pend' = [k |-> "sync", c |-> c, gen |-> gen, topics |-> Subscribed(g)]
+             /\ hist' = Append(hist, H @@ Hold)
         ELSE \E a \in (IF g.phase = PC THEN AssignSet(g) ELSE {g.asg}) :
                LET g1 == IF g.phase = PC THEN [g EXCEPT !.asg = a, !.phase = PS, !.deadline = 0] ELSE g
-               IN /\ grp' = g1 /\ store' = Persist(g1)
-                  /\ last' = Base("Sync", c, gen, 0, g) @@ [asg |-> g1.asg[c]]
-  /\ hist' = Append(hist, [a |-> "Sync", c |-> c, d |-> d])
+               IN Plain(Base("Sync", c, gen, 0, g) @@ [asg |-> g1.asg[c]], g1, Persist(g1))
   /\ UNCHANGED <<now, offs>> /\ Book
 
 Heartbeat(c, d) ==
   /\ \E g \in Loaded :
      LET gen == EffGen(g) + d
          R(code) == Base("Heartbeat", c, gen, code, g)
-     IN IF g.none THEN /\ last' = R(25) /\ UNCHANGED <<grp, store>>
-        ELSE IF c \notin Mem(g) THEN /\ last' = R(25) /\ grp' = g /\ UNCHANGED store
-        ELSE IF ~DevHbNoGen /\ gen # g.gen THEN /\ last' = R(22) /\ grp' = g /\ UNCHANGED store
+         H == [a |-> "Heartbeat", c |-> c, d |-> d]
+         Plain(l, g2, st) == last' = l /\ grp' = g2 /\ store' = st /\ pend' = pend /\ hist' = Append(hist, H)
+         Write(l, g1) == IF DevHbWriteUnlocked      \* snapshot under the lock, PutConsumerGroup after unlocking
+                         THEN /\ pend = NoPend /\ last' = Pending(l) /\ grp' = g1 /\ store' = store
+                              /\ pend' = [k |-> "put", snap |-> Persist(g1)] /\ hist' = Append(hist, H @@ Hold)
+                         ELSE Plain(l, g1, Persist(g1))
+     IN IF g.none THEN Plain(R(25), grp, store)
+        ELSE IF c \notin Mem(g) THEN Plain(R(25), g, store)
+        ELSE IF ~DevHbNoGen /\ gen # g.gen THEN Plain(R(22), g, store)
         ELSE LET g1 == IF DevExpireIgnoresHb THEN g ELSE [g EXCEPT !.mem[c].hb = now] IN
              IF g.phase # PS
-             THEN IF FixHbRefresh THEN /\ grp' = g1 /\ store' = Persist(g1) /\ last' = R(27)
-                  ELSE /\ grp' = g /\ UNCHANGED store /\ last' = R(27)
-             ELSE /\ grp' = g1 /\ store' = Persist(g1) /\ last' = R(0)
-  /\ hist' = Append(hist, [a |-> "Heartbeat", c |-> c, d |-> d])
+             THEN IF FixHbRefresh THEN Write(R(27), g1) ELSE Plain(R(27), g, store)
+             ELSE Write(R(0), g1)
   /\ UNCHANGED <<now, offs>> /\ Book
 
 Leave(c) ==
@@ -161,7 +184,7 @@ Leave(c) ==
           ELSE \E g2 \in StartRebalanceSet(IF g1.leader = c THEN [g1 EXCEPT !.leader = ""] ELSE g1, 0, now) :
                  /\ grp' = g2 /\ store' = Persist(g2) /\ last' = R(0)
   /\ hist' = Append(hist, [a |-> "Leave", c |-> c])
-  /\ UNCHANGED <<now, offs>> /\ Book
+  /\ UNCHANGED <<now, offs, pend>> /\ Book
 
 \* OffsetCommit: member/generation check under c.mu, then the store write (atomic here: the harness is sequential)
 Commit(c, d) ==
@@ -173,7 +196,7 @@ Commit(c, d) ==
         /\ offs' = TLCEval(IF code = 0 THEN [offs EXCEPT ![CommitTP] = v] ELSE offs)
         /\ last' = Base("Commit", c, gen, code, g) @@ [v |-> v]
   /\ hist' = Append(hist, [a |-> "Commit", c |-> c, d |-> d])
-  /\ UNCHANGED <<now, store>> /\ Book
+  /\ UNCHANGED <<now, store, pend>> /\ Book
 
 \* DeleteGroups: store lookup decides; the in-memory state is dropped either way
 DeleteGroups ==
@@ -181,14 +204,15 @@ DeleteGroups ==
      IF store.none THEN /\ grp' = NoGrp /\ UNCHANGED store /\ last' = Base("DeleteGroups", "", 0, 69, pre)
      ELSE /\ grp' = NoGrp /\ store' = NoGrp /\ last' = Base("DeleteGroups", "", 0, 0, pre)
   /\ hist' = Append(hist, [a |-> "DeleteGroups"])
-  /\ UNCHANGED <<now, offs>> /\ Book
+  /\ UNCHANGED <<now, offs, pend>> /\ Book
 
 \* one cleanup interval passes, then cleanupGroups: removeExpiredMembers, dropRebalanceLaggers, startRebalance(0)
 Tick ==
-  /\ now < MaxClock
+  /\ now < MaxClock /\ pend = NoPend
   /\ now' = now + 1
   /\ LET t == now + 1 IN
-     IF grp.none THEN /\ UNCHANGED <<grp, store>> /\ last' = Base("Tick", "", 0, 0, RestoreDet(store, now))
+     IF grp.none THEN /\ UNCHANGED <<grp, store, pend>> /\ last' = Base("Tick", "", 0, 0, RestoreDet(store, now))
+                      /\ hist' = Append(hist, [a |-> "Tick"])
      ELSE
        LET g == grp
            expired == IF DevNoExpire THEN {} ELSE {m \in Mem(g) : t - g.mem[m].hb > g.mem[m].sess}
@@ -196,30 +220,49 @@ Tick ==
            g1 == [g EXCEPT !.mem = Restrict(g.mem, keep1), !.asg = Restrict(g.asg, keep1),
                            !.leader = IF g.leader \in expired THEN "" ELSE g.leader,
                            !.phase = IF keep1 = {} THEN PE ELSE g.phase]
-           lagOn == ~DevNoLaggerDrop /\ g1.deadline # 0 /\ t >= g1.deadline
+           lagOn == ~DevNoLaggerDrop /\ ~(DevLaggerSkippedOnExpiry /\ expired # {}) /\ g1.deadline # 0 /\ t >= g1.deadline
            laggers == IF lagOn THEN {m \in Mem(g1) : g1.mem[m].jg # g1.gen} ELSE {}
            keep2 == Mem(g1) \ laggers
            g2 == [g1 EXCEPT !.mem = Restrict(g1.mem, keep2), !.asg = Restrict(g1.asg, keep2),
                             !.leader = IF g1.leader \in laggers THEN "" ELSE g1.leader,
                             !.phase = IF keep2 = {} THEN PE ELSE g1.phase]
-       IN /\ last' = Base("Tick", "", 0, 0, g)
-          /\ IF keep2 = {} THEN grp' = NoGrp /\ store' = NoGrp
-             ELSE IF expired \cup laggers # {} THEN \E g3 \in StartRebalanceSet(g2, 0, t) : grp' = g3 /\ store' = Persist(g3)
-             ELSE UNCHANGED <<grp, store>>
-  /\ hist' = Append(hist, [a |-> "Tick"])
+           T == Base("Tick", "", 0, 0, g)
+           Write(g3) == IF DevCleanupWriteUnlocked    \* sweep under the lock, Put/DeleteConsumerGroup after unlocking
+                        THEN /\ last' = Pending(T) /\ grp' = g3 /\ store' = store /\ pend' = [k |-> "put", snap |-> Persist(g3)]
+                             /\ hist' = Append(hist, [a |-> "Tick"] @@ Hold)
+                        ELSE /\ last' = T /\ grp' = g3 /\ store' = Persist(g3) /\ pend' = pend /\ hist' = Append(hist, [a |-> "Tick"])
+       IN IF keep2 = {} THEN Write(NoGrp)
+          ELSE IF expired \cup laggers # {} THEN \E g3 \in StartRebalanceSet(g2, 0, t) : Write(g3)
+          ELSE /\ last' = T /\ UNCHANGED <<grp, store, pend>> /\ hist' = Append(hist, [a |-> "Tick"])
   /\ UNCHANGED offs /\ Book
+
+\* the store operation parked outside the lock goes through (only with a Dev*Unlocked deviation)
+Release ==
+  /\ pend.k # "none"
+  /\ LET pre == IF ~grp.none THEN grp ELSE RestoreDet(store, now) IN
+     IF pend.k = "put"
+     THEN /\ store' = pend.snap /\ grp' = grp /\ last' = Base("Release", "", 0, 0, pre)
+     ELSE \* leader's SyncGroup re-locks, re-checks generation and phase, assigns the *current* members over the topics seen *before*
+       LET R(code) == Base("Sync", pend.c, pend.gen, code, pre) @@ [asg |-> {}] IN
+       IF grp.none \/ pre.none THEN /\ last' = R(27) /\ UNCHANGED <<grp, store>>
+       ELSE IF pend.gen # grp.gen \/ grp.phase # PC \/ pend.c \notin Mem(grp) THEN /\ last' = R(27) /\ UNCHANGED <<grp, store>>
+       ELSE \E a \in AssignSetT(grp, pend.topics) :
+              LET g1 == [grp EXCEPT !.asg = a, !.phase = PS, !.deadline = 0]
+              IN /\ grp' = g1 /\ store' = Persist(g1) /\ last' = Base("Sync", pend.c, pend.gen, 0, pre) @@ [asg |-> g1.asg[pend.c]]
+  /\ pend' = NoPend /\ hist' = Append(hist, [a |-> "Release"])
+  /\ UNCHANGED <<now, offs>> /\ Book
 
 \* the coordinator is replaced: memory is lost, the store stays
 Failover ==
-  /\ ~grp.none
+  /\ ~grp.none /\ pend = NoPend
   /\ grp' = NoGrp /\ last' = Base("Failover", "", 0, 0, grp)
   /\ hist' = Append(hist, [a |-> "Failover"])
-  /\ UNCHANGED <<now, store, offs>> /\ Book
+  /\ UNCHANGED <<now, store, offs, pend>> /\ Book
 
-Next == \/ \E c \in Members : \/ \E s \in SubsChoices : Join(c, s)
+Next == \/ \E c \in Members : \/ \E s \in SubsChoices, ss \in SessChoices : Join(c, s, ss)
                               \/ \E d \in {0, -1} : Sync(c, d) \/ Heartbeat(c, d) \/ Commit(c, d)
                               \/ Leave(c)
-        \/ Tick \/ Failover \/ DeleteGroups
+        \/ Tick \/ Failover \/ DeleteGroups \/ Release
 Spec == Init /\ [][Next]_vars
 
 \* ---------------------------------------------------------------- properties (GroupProps, as action properties over a step)
@@ -236,6 +279,7 @@ C14_Leader == [][P!C14_Leader]_vars
 C14_ListOnlyLeader == [][P!C14_ListOnlyLeader]_vars
 C14_SyncAfterLeader == [][P!C14_SyncAfterLeader]_vars
 C15_RestoreEqual == [][P!C15_RestoreEqual]_vars
+C15_NotFenced == [][P!C15_NotFenced]_vars
 C15_KeepWorking == [][P!C15_KeepWorking]_vars
 C43_RemovedJustified == [][P!C43_RemovedJustified]_vars
 C43_NoOverdue == [][P!C43_NoOverdue]_vars
@@ -244,7 +288,7 @@ C43_Rebalances == [][P!C43_Rebalances]_vars
 \* all of them as one action property (one evaluation per transition: used by the exhaustive configs)
 AllC == [][/\ P!C12_OnlySubscribed /\ P!C12_ExactlyOne /\ P!C12_ReplyFromMap /\ P!C12_OneMapPerGen /\ P!C13_StaleRejected /\ P!C13_StaleNoCommit
            /\ P!C13_GenMonotone /\ P!C13_ReplyGen /\ P!C14_JoinOK /\ P!C14_Leader /\ P!C14_ListOnlyLeader /\ P!C14_SyncAfterLeader
-           /\ P!C15_RestoreEqual /\ P!C15_KeepWorking /\ P!C43_RemovedJustified /\ P!C43_NoOverdue /\ P!C43_Rebalances]_vars
+           /\ P!C15_RestoreEqual /\ P!C15_NotFenced /\ P!C15_KeepWorking /\ P!C43_RemovedJustified /\ P!C43_NoOverdue /\ P!C43_Rebalances]_vars
 
 \* internal facts of the model (conformance level, not part of any property)
 StoreInSync == ~grp.none => (~store.none /\ store.gen = grp.gen /\ store.phase = grp.phase /\ DOMAIN store.mem = Mem(grp))
@@ -253,6 +297,6 @@ AsgOnlyStable == (~grp.none /\ grp.phase # PS) => \A m \in Mem(grp) : grp.asg[m]
 HbIsAlive == (FixHbRefresh /\ ~DevExpireIgnoresHb /\ ~grp.none) => \A m \in Mem(grp) : grp.mem[m].hb = alive[m]
 
 GenBound == grp.none \/ grp.gen <= MaxGen
-View == <<grp, store, now, alive, gstart>>
+View == <<grp, store, now, alive, gstart, fgen, pend>>
 EmitSched == PrintT(<<"SCHED", ToJson(hist)>>)
 ====
